@@ -18,19 +18,22 @@ import scenario_common as sc
 HOOKS = ["next", "restoreerror", "initerror", "timeout", "exit", "nopoll", "next-before-restore"]
 
 
-def one(sid, rnd, hook, order, nx, creds_when):
+def one(sid, rnd, hook, order, nx, creds_when, extlate=False):
     exts = ["e%d" % (i + 1) for i in range(nx)]
     subs = {e: ["INVOKE"] for e in exts}
     s = Scn(sid, ext=exts, timeout_ms=600, initCaching=True, onTerm={e: "exit" for e in exts}, fullEnv=True)
-    s.meta(family="restore", hook=hook, order=order)
+    s.meta(family="restore", hook=hook, order=order, extlate=extlate)
     s.init()
     tags = {}
     for e in exts:
         s.await_exec(base=e)
         s.register("ext:" + e, subs[e])
     s.await_exec(kind="rt")
-    for e in exts:
-        tags["ext:" + e] = s.poll("ext:" + e)
+    if not extlate:
+        for e in exts:
+            tags["ext:" + e] = s.poll("ext:" + e)
+    # extlate: the extensions are still initialising (registered, first poll outstanding) while the restore
+    # protocol runs: initialisation has not completed, the restore must still wait for the hook
     if "before" in creds_when:
         s.call("rt", "creds", id="ok")
         s.call("rt", "creds", id="wrong")
@@ -67,6 +70,9 @@ def one(sid, rnd, hook, order, nx, creds_when):
         else:
             s.wait(rt)          # restore first: nobody was parked, it returned at once
             s.settle("rt", rp)
+    if extlate:
+        for e in exts:
+            tags["ext:" + e] = s.poll("ext:" + e)
     if "after" in creds_when:
         s.call("rt", "creds", id="ok")
         s.call("rt", "creds", id="wrong")
@@ -97,6 +103,10 @@ def scenarios(ctx):
             for nx in ((0, 1) if not ctx.quick else (rnd.choice([0, 1]),)):
                 n += 1
                 out.append(one("c18-%03d" % n, rnd, hook, order, nx, rnd.choice([("before", "after"), ("after",), ("before",)])))
+    # extensions that are still initialising while the restore protocol runs
+    for hook in ("next", "restoreerror", "timeout") if ctx.quick else HOOKS:
+        n += 1
+        out.append(one("c18-%03d" % n, rnd, hook, "poll-first", 1, ("after",), extlate=True))
     if not ctx.quick:
         # every hook x order x number of extensions x when the credentials are asked, with fresh random error types
         for hook in HOOKS:
